@@ -255,7 +255,14 @@ class BuiltinMixin:
     def bi_range(self, args, kwargs, node):
         if all(isinstance(a, int) for a in args):
             return list(range(*args))
-        raise Unsupported("range with symbolic bounds (needs loop support)")
+        from .omap import View
+
+        if len(args) in (1, 2):
+            lo = lift(0 if len(args) == 1 else args[0], TInt)
+            hi = lift(args[-1], TInt)
+            n = SV(z3.If(hi.t - lo.t > 0, hi.t - lo.t, z3.IntVal(0)), TInt)
+            return View(n, lambda i, lo=lo: lo + i, "range")
+        raise Unsupported("range with a step")
 
     def bi_str(self, args, kwargs, node):
         if not args:
